@@ -154,8 +154,21 @@ def search(chk, n_cases):
                     else:
                         b_ = np.array([[rng.gauss(0, 1) + 1j * rng.gauss(0, 1) for _ in range(dd)] for _ in range(dd)])
                         inits.append(b_ @ b_.conj().T / np.trace(b_ @ b_.conj().T))
+                # single-site control operations that are channels but not unital (reset to the ground state, amplitude damping):
+                # trace preserving, so norm and traces stay one
+                cc = None
+                if it == 3 or rng.random() < 0.5:
+                    cc = oqupy.ChainControl(dims)
+                    for site_, step_, post_ in [(0, 1, False), (L - 1, 2, True), (rng.randrange(L), min(2, n - 1), False)]:
+                        dd_ = dims[site_]
+                        ks_ = [np.eye(dd_)[:, [0]] @ np.eye(dd_)[[j_], :] for j_ in range(dd_)] if (site_ + step_) % 2 == 0 else \
+                            [np.diag([1.0] + [np.sqrt(0.6)] * (dd_ - 1)), np.sqrt(0.4) * np.eye(dd_)[:, [0]] @ np.eye(dd_)[[dd_ - 1], :]] + \
+                            [np.sqrt(0.4) * np.eye(dd_)[:, [0]] @ np.eye(dd_)[[j_], :] for j_ in range(1, dd_ - 1)]
+                        sup_ = sum(np.kron(k_, k_.conj()) for k_ in ks_)
+                        cc.add_single_site_control(sup_, site_, step_, post_)
+                    info["chain_control"] = "non-unital channels"
                 p = oqupy.PtTebd(oqupy.AugmentedMPS(inits), chain, [pt] + [None] * (L - 1),
-                                 oqupy.PtTebdParameters(dt=dt, order=rng.choice([1, 2]), epsrel=eps), dynamics_sites=list(range(L)) + subsets)
+                                 oqupy.PtTebdParameters(dt=dt, order=rng.choice([1, 2]), epsrel=eps), dynamics_sites=list(range(L)) + subsets, chain_control=cc)
                 res = quiet(p.compute, n, progress_type="silent")
                 states = [st for site in list(range(L)) + subsets for st in res["dynamics"][site].states]
                 if np.abs(np.array(res["norm"]) - 1).max() > tol:
